@@ -6,7 +6,10 @@ machine          stateful, model-based: 1-3 matrices of one data type over a sha
                  so taxa can only be told apart by identity) plus one matrix over a foreign namespace.  Every library
                  call runs inside budget.run (deterministic step budget) and is compared with what its docstring says;
                  after every step ALL matrices (targets, arguments, bystanders, the foreign one) are compared with the
-                 model, which is what establishes "arguments unchanged" and "rows are copies, not aliases".
+                 model, which is what establishes "arguments unchanged" and "rows are copies, not aliases".  The
+                 namespace itself changes during a history (taxa removed while matrices still hold their rows, added
+                 back, new taxa, sort/reverse); rows are therefore observed by Taxon object (membership test, item
+                 access, len, raw store) and, separately, through public iteration for member taxa.
 concat_patterns  exhaustive: every (object-identity pattern x label pattern) of <= 3 matrices for every data type.
 concat_random    @given: up to 4 matrices with random dimensions, contents and labels.
 concat_streams   @given (small): concatenate_from_streams over FASTA texts against the same per-taxon oracle.
@@ -24,7 +27,9 @@ CONFIG = {
     "rule": ("machine: Hypothesis rule-based histories over concatenate / export_character_indices / "
              "export_character_subset / new_character_subset / fill / fill_taxa / pack / add_ / replace_ / update_ / "
              "extend_sequences / extend_matrix / remove_ / discard_ / keep_sequences (+ a row assignment to keep states "
-             "varied) on 1-3 matrices of one of 9 data types over a shared namespace of 1-4 taxa with repeated labels and "
+             "varied, + namespace events: remove a taxon that still has rows, add it back, new taxa, sort/reverse; rows "
+             "are observed by Taxon through membership/item access/the raw store and, for member taxa, through public "
+             "iteration) on 1-3 matrices of one of 9 data types over a shared namespace of 1-4 taxa with repeated labels and "
              "one foreign-namespace matrix; non-trivial = history with >= 3 effective steps (a step that changed a "
              "matrix, returned a checked non-empty result or was a checked refusal); distinct = (init, op sequence). "
              "concat_patterns: exhaustive over identity patterns (restricted growth strings) x labels from a 6-label "
@@ -33,6 +38,9 @@ CONFIG = {
     "assumptions": [
         "cell values come from each type's own alphabet (<= 26 symbols) or from 7 dyadic numbers for continuous data",
         "<= 4 taxa x <= 5 columns per generated matrix (results of concatenation/extension grow up to 40 columns)",
+        "rows whose taxon left the namespace: the Taxon-keyed operations (add_/replace_/update_/extend_*/remove_/discard_/"
+        "keep_sequences) are asserted in full; for the namespace-walking ones (fill, pack, export_*) only member rows are "
+        "asserted plus 'existing cells kept', and concatenate is not called (outside its documented domain)",
         "concatenate is only called on complete rectangular matrices over one namespace (its documented domain), "
         "except for the refusal clause (one matrix over a foreign namespace)",
         "step budget: limit = 50000 + 2000 x cells events (>= 50x the largest passing call of that size); observed maxima are "
@@ -182,18 +190,20 @@ class Caller(object):
 # ---------------------------------------------------------------------------------------------------------------------
 # concatenation oracle (shared by the machine and the concat sub-checks)
 # ---------------------------------------------------------------------------------------------------------------------
-def check_concatenation(ctx, result, kit, ns, taxa, sources, where):
-    """sources: list of (label, rows-model) in argument order; every model is complete and rectangular."""
+def check_concatenation(ctx, result, kit, ns, taxa, sources, where, idxs=None):
+    """sources: list of (label, rows-model) in argument order; every model is complete (a row for exactly the taxa
+    `idxs`, the members of the namespace) and rectangular."""
+    idxs = list(range(len(taxa))) if idxs is None else list(idxs)
     ctx.check(isinstance(result, kit.cls), "concat_type", "C19.concat_type",
               lambda: "%s: result is %s, expected %s" % (where, type(result).__name__, kit.cls.__name__))
     ctx.check(result.taxon_namespace is ns, "concat_namespace", "C19.concat_namespace",
               "%s: result is not over the namespace of its sources" % where)
-    want = dict((i, []) for i in range(len(taxa)))
+    want = dict((i, []) for i in idxs)
     ranges = []
     pos = 0
     for label, rows in sources:
-        width = len(rows[0])
-        for i in range(len(taxa)):
+        width = len(rows[idxs[0]])
+        for i in idxs:
             want[i] = want[i] + rows[i]
         ranges.append((pos, pos + width))
         pos += width
@@ -276,7 +286,13 @@ RULES = {
     "discard_sequences": fd(**ROWSET),
     "keep_sequences": fd(**ROWSET),
     "set_row": fd(k=K, t=st.integers(0, 7), cells=st.lists(CELL, max_size=MAX_COLS)),
+    # namespace-level events: rows are keyed by Taxon, whatever happens to the namespace afterwards
+    "ns_remove": fd(t=st.integers(0, 7)),
+    "ns_add_back": fd(t=st.integers(0, 7)),
+    "ns_new": fd(l=st.integers(0, len(NS_LABELS) - 1)),
+    "ns_reorder": fd(how=st.sampled_from(["sort", "sort_reverse", "reverse"])),
 }
+MAX_KNOWN_TAXA = 6
 
 
 def rows_from_spec(spec, ntaxa):
@@ -298,8 +314,14 @@ class Slot(object):
     def cells(self):
         return sum(len(r) for r in self.rows.values()) + len(self.rows)
 
-    def complete_rect(self, ntaxa):
-        return len(self.rows) == ntaxa and len(set(len(r) for r in self.rows.values())) == 1
+    def complete_rect(self, members):
+        """a row for exactly the member taxa of the namespace, all equally long: concatenate's documented domain"""
+        return (len(members) > 0 and set(self.rows) == set(members)
+                and len(set(len(r) for r in self.rows.values())) == 1)
+
+    def strays(self, members):
+        """rows whose taxon is (currently) not a member of the namespace"""
+        return [i for i in self.rows if i not in members]
 
 
 class Interp(object):
@@ -310,7 +332,8 @@ class Interp(object):
         self.call = Caller(ctx)
         self.ns = d.TaxonNamespace()
         self.taxa = [self.ns.new_taxon(NS_LABELS[l]) for l in init["ns"]]
-        self.n = len(self.taxa)
+        self.n = len(self.taxa)            # size of the foreign namespace (never changed)
+        self.members = list(range(self.n))  # indices into self.taxa, in namespace order; self.taxa only ever grows
         self.fns = d.TaxonNamespace()
         self.ftaxa = [self.fns.new_taxon(NS_LABELS[l]) for l in init["ns"]]
         self.slots = []
@@ -352,7 +375,7 @@ class Interp(object):
         self.ctx.cls("result_stored")
 
     def taxon_args(self, a, unique):
-        idx = [i % self.n for i in a["taxa"]]
+        idx = [i % len(self.taxa) for i in a["taxa"]]     # members and former members alike
         if unique:
             seen = []
             for i in idx:
@@ -391,9 +414,9 @@ class Interp(object):
         if a.get("prep"):
             # bring the chosen matrices into concatenate's documented domain with a (checked) pack
             for k in a["sel"]:
-                if not self.slot(k).complete_rect(self.n):
+                if not self.slot(k).complete_rect(self.members) and not self.slot(k).strays(self.members):
                     self.op_pack({"k": k, "v": a["label"], "size": None, "append": True}, d)
-        if not all(s.complete_rect(self.n) for s in sel):
+        if not all(s.complete_rect(self.members) for s in sel):
             ctx.cls("concatenate:skipped_incomplete_or_ragged_source")
             return
         args = list(sel)
@@ -407,7 +430,7 @@ class Interp(object):
                         del args[j]
                         break
                 fa = [j for j, x in enumerate(args) if x is self.foreign][0]
-        if sum(len(s.rows[0]) for s in args) > MAX_WIDTH:
+        if sum(len(next(iter(s.rows.values()))) for s in args) > MAX_WIDTH:
             ctx.cls("skipped_row_would_exceed_%d_columns" % MAX_WIDTH)
             return
         mats = [s.m for s in args]
@@ -433,7 +456,7 @@ class Interp(object):
             return
         res = self.call("concatenate", lambda: self.kit.cls.concatenate(mats), cells)
         want, subs = check_concatenation(ctx, res, self.kit, self.ns, self.taxa,
-                                         [(s.m.label, s.rows) for s in args], "machine")
+                                         [(s.m.label, s.rows) for s in args], "machine", idxs=self.members)
         ctx.cls("concatenate:checked_n=%d" % len(args))
         self.effective += 1
         self.store(a, res, want, subs)
@@ -443,17 +466,27 @@ class Interp(object):
         idx = list(a["idx"])
         res = self.call("export_character_indices", lambda: s.m.export_character_indices(idx), s.cells() + 1)
         self.check_export(s, res, idx, "export_character_indices(%r)" % (idx,))
+        self.store_export(a, s, res, idx)
+
+    def store_export(self, a, s, res, idx):
+        if s.strays(self.members):
+            return      # what a copy does with rows of non-member taxa is not documented: do not build on it
         self.store(a, res, select_columns(s.rows, idx), observe_subsets(res))
 
     def check_export(self, s, res, idx, what):
-        want = select_columns(s.rows, idx)
-        got = observe(res, self.taxa)
+        # "columns given by the indices" is asserted for the rows of the namespace's taxa; the matrix model of the
+        # library has no documented place for rows of taxa outside the namespace in a copy
+        strays = s.strays(self.members)
+        want = select_columns(dict((i, r) for i, r in s.rows.items() if i in self.members), idx)
+        got = dict((i, r) for i, r in observe(res, self.taxa).items() if i in self.members)
         self.V(res is not s.m, "export_returns_new_matrix", what)
         self.V(type(res) is type(s.m), "export_type", lambda: "%s returned %s" % (what, type(res).__name__))
         self.V(res.taxon_namespace is self.ns, "export_namespace", "%s: result does not reference the same namespace" % what)
-        self.V(got == want and len(res) == len(want), "export_columns",
+        self.V(got == want and (strays or len(res) == len(want)), "export_columns",
                lambda: "%s on %s: got %s (len %d) want %s" % (what, fmt_rows(s.rows), fmt_rows(got), len(res),
                                                               fmt_rows(want)))
+        if strays:
+            self.ctx.cls("export:source_with_rows_of_non_member_taxa")
         width = max([len(r) for r in s.rows.values()] or [0])
         sel = set(i for i in idx if i < width)
         if s.rows and width:
@@ -489,7 +522,7 @@ class Interp(object):
         self.ctx.cls("export_subset:by_" + by)
         res = self.call("export_character_subset", lambda: s.m.export_character_subset(arg), s.cells() + 1)
         self.check_export(s, res, idx, "export_character_subset(<%s> %r)" % (by, idx))
-        self.store(a, res, select_columns(s.rows, idx), observe_subsets(res))
+        self.store_export(a, s, res, idx)
 
     def op_new_subset(self, a, d):
         s = self.slot(a["k"])
@@ -527,49 +560,63 @@ class Interp(object):
             out[i] = (r + extra) if append else (extra + r)
         return out
 
-    def op_fill(self, a, d):
+    def padding(self, op, a, d, add_missing):
+        """fill (add_missing=False) and pack (add_missing=True).
+
+        Both walk the namespace: rows of member taxa are padded (and, for pack, created).  A row whose taxon has left the
+        namespace is in a state the documentation does not cover; for it only "existing cells are not altered" is
+        asserted (it is either untouched or padded like the others) and the model adopts what happened.  When such a row
+        is longer than every member row, "the longest sequence" (size=None) is ambiguous and the call is not made."""
         s = self.slot(a["k"])
-        v = self.kit.value(a["v"])
+        v, sym = self.kit.value(a["v"]), self.kit.symbol(a["v"])
         size, append = a["size"], a["append"]
-        cells = s.cells() + len(s.rows) * (size or 0) + 1
+        rows = dict((i, list(r)) for i, r in s.rows.items())
+        if add_missing:
+            for i in self.members:
+                rows.setdefault(i, [])
+        mem = dict((i, r) for i, r in rows.items() if i in self.members)
+        strays = s.strays(self.members)
+        eff = size if size is not None else max([len(r) for r in mem.values()] or [0])
+        if strays and size is None and max(len(rows[i]) for i in strays) > eff:
+            self.ctx.cls("skipped:%s_longest_row_belongs_to_non_member_taxon" % op)
+            return
+        cells = s.cells() + (len(rows) + 1) * (1 + eff) + 1
         if size is None and append:
-            self.call("fill", lambda: s.m.fill(v), cells)
+            self.call(op, lambda: getattr(s.m, op)(v), cells)
+        elif op == "pack":
+            self.call(op, lambda: s.m.pack(value=v, size=size, append=append), cells)
         else:
-            self.call("fill", lambda: s.m.fill(v, size=size, append=append), cells)
-        new = self.pad(s.rows, self.kit.symbol(a["v"]), size, append)
+            self.call(op, lambda: s.m.fill(v, size=size, append=append), cells)
+        new = self.pad(mem, sym, eff, append)
+        if strays:
+            got = observe(s.m, self.taxa)
+            for i in strays:
+                alt = self.pad({i: rows[i]}, sym, eff, append)[i]
+                self.V(got.get(i) in (rows[i], alt), "padding_keeps_existing_cells",
+                       lambda: "%s: row of non-member taxon %d was %r, now %r" % (op, i, rows[i], got.get(i)))
+                new[i] = got[i]
+            self.ctx.cls("%s:target_with_rows_of_non_member_taxa" % op)
         if new != s.rows:
             self.effective += 1
-            self.ctx.cls("fill:padded_%s" % ("end" if append else "front"))
+            self.ctx.cls("%s:changed_%s" % (op, "end" if append else "front"))
         s.rows = new
+        if op == "pack" and size is None and not strays:
+            self.V(s.complete_rect(self.members), "harness_pack_model")
+
+    def op_fill(self, a, d):
+        self.padding("fill", a, d, False)
+
+    def op_pack(self, a, d):
+        self.padding("pack", a, d, True)
 
     def op_fill_taxa(self, a, d):
         s = self.slot(a["k"])
-        self.call("fill_taxa", lambda: s.m.fill_taxa(), s.cells() + self.n)
-        for i in range(self.n):
+        self.call("fill_taxa", lambda: s.m.fill_taxa(), s.cells() + len(self.taxa))
+        for i in self.members:
             if i not in s.rows:
                 s.rows[i] = []
                 self.effective += 1
                 self.ctx.cls("fill_taxa:row_added")
-
-    def op_pack(self, a, d):
-        s = self.slot(a["k"])
-        v = self.kit.value(a["v"])
-        size, append = a["size"], a["append"]
-        cells = s.cells() + self.n * (1 + (size or 0)) + 1
-        if size is None and append:
-            self.call("pack", lambda: s.m.pack(v), cells)
-        else:
-            self.call("pack", lambda: s.m.pack(value=v, size=size, append=append), cells)
-        rows = dict(s.rows)
-        for i in range(self.n):
-            rows.setdefault(i, [])
-        new = self.pad(rows, self.kit.symbol(a["v"]), size, append)
-        if new != s.rows:
-            self.effective += 1
-            self.ctx.cls("pack:changed")
-        s.rows = new
-        if size is None:
-            self.V(s.complete_rect(self.n), "harness_pack_model")
 
     def binary(self, op, a, d, apply_model, call=None):
         s = self.slot(a["k"])
@@ -697,6 +744,8 @@ class Interp(object):
         arg = iter(objs) if a["as_iter"] else objs
         self.call("keep_sequences", lambda: s.m.keep_sequences(arg), s.cells() + len(objs) + 1)
         drop = [i for i in s.rows if i not in idx]
+        if any(i not in self.members for i in drop):
+            self.ctx.cls("keep:dropped_row_of_non_member_taxon")
         labels_kept = set(t.label for t in objs)
         if any(self.taxa[i].label in labels_kept for i in drop):
             self.ctx.cls("keep:dropped_row_shares_label_with_kept_taxon")
@@ -709,30 +758,96 @@ class Interp(object):
     def op_set_row(self, a, d):
         # not a clause of C19: keeps histories varied after rows were removed (plain item assignment)
         s = self.slot(a["k"])
-        i = a["t"] % self.n
+        i = self.members[a["t"] % len(self.members)]    # item assignment is only defined for members of the namespace
         s.m[self.taxa[i]] = [self.kit.value(c) for c in a["cells"]]
         s.rows[i] = [self.kit.symbol(c) for c in a["cells"]]
 
+    # -- namespace-level events (not clauses of C19; they create the states the row operations must cope with) ------
+    def op_ns_remove(self, a, d):
+        if len(self.members) < 2:
+            return
+        i = self.members[a["t"] % len(self.members)]
+        self.ns.remove_taxon(self.taxa[i])
+        self.members.remove(i)
+        if any(i in s.rows for s in self.slots):
+            self.ctx.cls("ns:removed_taxon_that_still_has_rows")
+
+    def op_ns_add_back(self, a, d):
+        out = [i for i in range(len(self.taxa)) if i not in self.members]
+        if not out:
+            return
+        i = out[a["t"] % len(out)]
+        self.ns.add_taxon(self.taxa[i])
+        self.members.append(i)
+        if any(i in s.rows for s in self.slots):
+            self.ctx.cls("ns:readded_taxon_that_has_rows")
+
+    def op_ns_new(self, a, d):
+        if len(self.taxa) >= MAX_KNOWN_TAXA:
+            return
+        self.taxa.append(self.ns.new_taxon(NS_LABELS[a["l"]]))
+        self.members.append(len(self.taxa) - 1)
+        self.ctx.cls("ns:new_taxon")
+
+    def op_ns_reorder(self, a, d):
+        if a["how"] == "reverse":
+            self.ns.reverse()
+        else:
+            self.ns.sort(reverse=(a["how"] == "sort_reverse"))
+        order = [[k for k, t in enumerate(self.taxa) if t is x] for x in self.ns]
+        if sorted(k for ks in order for k in ks) != sorted(self.members) or any(len(ks) != 1 for ks in order):
+            raise runner.KnownSkip()     # the namespace itself misbehaved: C10's business, nothing to build on here
+        order = [ks[0] for ks in order]
+        if order != self.members:
+            self.ctx.cls("ns:reordered")
+        self.members = order
+
     # -- invariant -----------------------------------------------------------------------------------------------------
     def check_all(self, after):
-        self.V(len(self.ns) == self.n and all(x is y for x, y in zip(self.ns, self.taxa)), "namespace_unchanged",
+        self.V(len(self.ns) == len(self.members) and all(x is self.taxa[i] for x, i in zip(self.ns, self.members)),
+               "namespace_unchanged",
                lambda: "after %s the shared namespace holds %r" % (after, [t.label for t in self.ns]))
         self.V(len(self.fns) == self.n and all(x is y for x, y in zip(self.fns, self.ftaxa)), "namespace_unchanged",
                lambda: "after %s the foreign namespace holds %r" % (after, [t.label for t in self.fns]))
-        seen = []
         for k, s in enumerate(self.slots + [self.foreign]):
-            if any(s is x for x in seen):
-                continue
-            seen.append(s)
             foreign = s is self.foreign
             who = "foreign matrix" if foreign else "matrix %d" % k
             taxa = self.ftaxa if foreign else self.taxa
+            members = list(range(self.n)) if foreign else self.members
             self.V(s.m.taxon_namespace is (self.fns if foreign else self.ns), "matrix_namespace_unchanged", who)
             self.V(isinstance(s.m, self.kit.cls), "matrix_type", who)
+            # (1) by Taxon, independent of the namespace: membership test + item access for every Taxon ever used,
+            #     the row count, and the raw taxon -> sequence store
             got = observe(s.m, taxa)
-            self.V(got == s.rows and len(s.m) == len(s.rows), "rows_match_model",
-                   lambda: "after %s, %s: rows %s (len %d), documented outcome %s" % (
-                       after, who, fmt_rows(got), len(s.m), fmt_rows(s.rows)))
+            raw = {}
+            unknown = 0
+            for t, seq in s.m._taxon_sequence_map.items():
+                ks = [i for i, x in enumerate(taxa) if x is t]
+                if ks:
+                    raw[ks[0]] = list(seq.symbols_as_list())
+                else:
+                    unknown += 1
+            self.V(got == s.rows and len(s.m) == len(s.rows) and raw == s.rows and not unknown, "rows_match_model",
+                   lambda: "after %s, %s (namespace members %r): rows %s (len %d; store %s + %d unknown taxa), "
+                           "documented outcome %s" % (after, who, members, fmt_rows(got), len(s.m), fmt_rows(raw),
+                                                      unknown, fmt_rows(s.rows)))
+            # (2) public iteration shows exactly the rows of the taxa that are members of the namespace
+            pub = {}
+            dup = False
+            for t in s.m:
+                ks = [i for i, x in enumerate(taxa) if x is t]
+                if not ks or ks[0] in pub:
+                    dup = True
+                    continue
+                pub[ks[0]] = list(s.m[t].symbols_as_list())
+            items = dict((i, list(seq.symbols_as_list())) for t, seq in s.m.items()
+                         for i, x in enumerate(taxa) if x is t)
+            vis = dict((i, r) for i, r in s.rows.items() if i in members)
+            self.V(pub == vis and items == vis and not dup, "iteration_matches_model",
+                   lambda: "after %s, %s (namespace members %r): iteration gives %s, items() %s, expected %s" % (
+                       after, who, members, fmt_rows(pub), fmt_rows(items), fmt_rows(vis)))
+            if len(vis) < len(s.rows):
+                self.ctx.cls("state:matrix_with_rows_of_non_member_taxa")
             subs = observe_subsets(s.m)
             self.V(subs == s.subsets, "subsets_match_model",
                    lambda: "after %s, %s: subsets %r, expected %r" % (
